@@ -33,7 +33,7 @@ ASSUMPTIONS = [
     "the exception type of a refused command is not constrained beyond 'not a TimeoutError'",
     "command payload schemas inside the NCP model are bellows' own tables",
 ]
-PROBES = ["op.form", "op.leave", "op.ensure", "op.scan", "event_before_response", "event_after_timeout", "event_at_deadline", "nonmatching_event",
+PROBES = ["two_connections", "op.form", "op.leave", "op.ensure", "op.scan", "event_before_response", "event_after_timeout", "event_at_deadline", "nonmatching_event",
           "duplicate_event", "refused", "no_response", "timeout_raised", "cancelled", "already_joined", "not_joined", "scan_result_before_issue",
           "scan_result_before_response", "scan_result_after_completion", "scan_failed_completion", "repeated_operations", "ensure_from_state_1", "ensure_from_state_3", "ensure_from_state_4", "op.overlap", "overlap.refuse", "overlap.cancel", "overlap.timeout"]
 
@@ -58,6 +58,7 @@ def plan(tier):
                         sweeps.append(("status", {"V": V, "op": op, "status": status, "rd": rdi, "scheds": scheds[i:i + chunk], "sched": False}))
         sweeps.append(("ensure_state", {"V": V, "sched": False}))
         sweeps.append(("overlap", {"V": V, "sched": False}))
+        sweeps.append(("twin", {"V": V, "sched": False}))
         for part in range(4):
             sweeps.append(("scan", {"V": V, "part": part, "sched": False}))
     return {
@@ -71,7 +72,80 @@ def plan(tier):
     }
 
 
+def run_twin(params, tape, detail=False):
+    """Two EZSP connections in one process: a form / leave wait pending on one of them is completed only by ITS OWN NCP's status event, never by
+    an event that arrives on the other connection."""
+    import bellows.uart
+    import zigpy.serial
+
+    V = params["V"]
+    rig_a = e3.StackRig(tape, version=V, sched=params.get("sched", True), fast_line=True, chunking=False, max_iters=2_000_000, max_vt=1e8)
+    rig_b = e3.StackRig(tape, version=V, loop=rig_a.loop, fast_line=True, chunking=False)
+    loop = rig_a.loop
+    viol, probes, out = [], {"two_connections": 1}, {}
+
+    async def connect(rig):
+        zigpy.serial.create_serial_connection = rig._create_serial_connection
+        bellows.uart.zigpy.serial.create_serial_connection = rig._create_serial_connection
+        return await rig.bringup()
+
+    async def op(label, coro):
+        t0 = loop.time()
+        try:
+            await coro
+            out[label] = ("ok", loop.time() - t0)
+        except asyncio.CancelledError:
+            out[label] = ("cancelled", loop.time() - t0)
+            raise
+        except BaseException as e:  # noqa: BLE001
+            out[label] = ("raised", type(e).__name__, loop.time() - t0)
+
+    async def main():
+        ez_a, ez_b = await connect(rig_a), await connect(rig_b)
+        par = t.EmberNetworkParameters.deserialize(bytes(40))[0]
+        rig_b.ncp.emit_stack_status = False  # B's NCP accepts the commands but its status events never come
+        # B waits for NETWORK_UP; meanwhile A forms its own network and gets its NETWORK_UP
+        tb = loop.create_task(op("B.form", ez_b.formNetwork(parameters=par)))
+        await asyncio.sleep(0.5)
+        await op("A.form", ez_a.formNetwork(parameters=par))
+        await asyncio.sleep(11.0)
+        # the same for NETWORK_DOWN
+        rig_b.ncp.net_state = 2  # (joined, as far as B's NCP is concerned)
+        tb2 = loop.create_task(op("B.leave", ez_b.leaveNetwork()))
+        await asyncio.sleep(0.5)
+        await op("A.leave", ez_a.leaveNetwork())
+        await asyncio.sleep(11.0)
+        for t_ in (tb, tb2):
+            if not t_.done():
+                t_.cancel()
+        out["listeners"] = (sum(len(v) for v in ez_a._stack_status_listeners.values()), sum(len(v) for v in ez_b._stack_status_listeners.values()))
+
+    outcome, val = rig_a.run(main())
+    tag = f"v{V} two connections"
+    if outcome != "done":
+        viol.append(("C17.both", "sim-" + outcome, f"{tag}: simulation ended with {outcome}: {val!r}"))
+    else:
+        for lab in ("A.form", "A.leave"):
+            if out.get(lab, ("",))[0] != "ok":
+                viol.append(("C17.both", "twin-own-event-missed", f"{tag}: {lab} ended {out.get(lab)} although its own NCP answered OK and emitted the status event"))
+        for lab in ("B.form", "B.leave"):
+            o = out.get(lab)
+            if o is None or o[0] == "ok":
+                viol.append(("C17.both", "completed-by-another-connections-event", f"{tag}: {lab} ended {o}: its own NCP never emitted the status event; the only "
+                             f"matching event arrived on the OTHER connection"))
+            elif o[0] == "raised" and (o[1] != "TimeoutError" or o[2] > 10.0 + 0.6):
+                viol.append(("C17.raise", "twin-timeout-when", f"{tag}: {lab} ended {o} (expected the operation time-out 10 s after the command's response)"))
+        if out.get("listeners") != (0, 0):
+            viol.append(("C17.clean", "leak", f"{tag}: status listeners left after all operations ended: {out.get('listeners')}"))
+    sig = hashlib.blake2b(repr(("twin", V, sorted((k, v[0]) for k, v in out.items() if isinstance(v, tuple) and isinstance(v[0], str)))).encode(), digest_size=8).digest()
+    return {"viol": viol, "faults": {}, "probes": probes, "vt": loop.time(), "iters": loop.iters, "sig": sig, "nontrivial": True,
+            "digest": hashlib.sha256(repr((rig_a.log[-200:], rig_b.log[-200:], sorted(out.items(), key=str))).encode()).hexdigest()[:16],
+            "sample": {"scenario": "twin", "V": V, "outcomes": {k: str(v) for k, v in out.items()}}}
+
+
 def run(scenario, params, tape, detail=False):
+    if scenario == "twin":
+        return run_twin(params, tape, detail)
     V = params["V"] if "V" in params else (4, 6, 8, 13, 14)[tape.draw(5, "V")]
     rig = e3.StackRig(tape, version=V, sched=params.get("sched", True), fast_line=True, chunking=False, max_iters=3_000_000, max_vt=1e8)
     loop, ncp = rig.loop, rig.ncp
